@@ -838,6 +838,11 @@ def enc_definitions(thorough):
     bases = base_shapes(thorough) + generic_shapes(thorough)
     seen = set()
     def push(d):
+        # final validity of the combination (overlays compose): the codec rejects duplicate variant indices at compile time
+        if d.kind == 'enum':
+            idx = [i for _, i in variant_indices(d)]
+            if len(set(idx)) != len(idx) or any(i > 255 for i in idx) or not idx:
+                return
         key = def_src(d) + repr(sorted(d.inst.items(), key=str)) + repr(d.mods)
         if key in seen: return
         seen.add(key)
